@@ -961,6 +961,17 @@ Corollary user_gain_kept_edfa : forall c lib bmin bmax pref_total prev_dp prev_v
 Proof. intros. unfold set_one in *. eapply user_gain_kept; eauto using edfa_selector_sound. Qed.
 
 (* ------------------------------------------------------------------ multiband OMS: the budget closes in every band *)
+(* each band amplifier of a multiband OMS is designed by the same set_one_amplifier: its saturation / VOA / operator
+   clauses are those of set_one_gen (dp_saturation, voa_rule, user_*_kept) with a sound selector *)
+Lemma band_selector_sound : forall c lib redfa prev b a, sel_sound lib (c_ext c) (band_selector c lib redfa prev b a).
+Proof.
+  intros c lib redfa prev b a g pt s red cr H. unfold band_selector in H.
+  match type of H with bind ?r _ = _ => destruct r as [[s' red'] | e] eqn:E end; cbn [bind] in H; [| discriminate].
+  injection H as <- <- _. unfold band_select in E.
+  destruct (select_fallback _ _ _ _ _ _ _ _ E) as (Hin & Hred & _).
+  split; [| exact Hred]. apply pool_subset in Hin. apply filter_In in Hin. tauto.
+Qed.
+
 Lemma mb_set_length : forall c lib nl tp tp_arg redfa prev bis st amps rs,
   mb_set c lib nl tp tp_arg redfa prev bis st amps = Ok rs ->
   length rs = length bis /\ length st = length bis /\ length amps = length bis.
@@ -978,7 +989,8 @@ Qed.
 
 Lemma mb_set_nth : forall c lib nl tp tp_arg redfa prev bis st amps rs k,
   mb_set c lib nl tp tp_arg redfa prev bis st amps = Ok rs -> (k < length bis)%nat ->
-  exists sel, set_one_gen c lib (bi_pref_total (nth k bis (mkBI 0 0 0))) (fst (nth k st (0, 0))) (snd (nth k st (0, 0)))
+  exists sel, sel_sound lib (c_ext c) sel /\
+    set_one_gen c lib (bi_pref_total (nth k bis (mkBI 0 0 0))) (fst (nth k st (0, 0))) (snd (nth k st (0, 0)))
                 nl tp tp_arg sel (nth k amps dummy_ampn) = Ok (nth k rs (dummy_damp, 0, 0)).
 Proof.
   intros c lib nl tp tp_arg redfa prev bis.
@@ -990,7 +1002,7 @@ Proof.
   match type of H with bind ?r _ = _ => destruct r as [rs1 | e] eqn:E2 end; cbn [bind] in H; [| discriminate].
   injection H as <-.
   destruct k as [| k]; cbn [nth fst snd].
-  - eexists. exact E1.
+  - eexists. split; [apply band_selector_sound | exact E1].
   - cbn [length] in Hk. apply (IH ss rest rs1 k E2). lia.
 Qed.
 
@@ -1027,7 +1039,7 @@ Proof.
       injection Hd as <-.
       destruct (mb_node_set _ _ _ _ _ _ _ _ _ _ _ _ _ EN) as [redfa ES].
       destruct (mb_set_length _ _ _ _ _ _ _ _ _ _ _ ES) as (L1 & L2 & L3).
-      destruct (mb_set_nth _ _ _ _ _ _ _ _ _ _ _ k ES Hk) as [sel S1].
+      destruct (mb_set_nth _ _ _ _ _ _ _ _ _ _ _ k ES Hk) as (sel & _ & S1).
       destruct (nth k rs (dummy_damp, 0, 0)) as [[d dp] voa] eqn:En.
       destruct (set_one_budget _ _ _ _ _ _ _ _ _ _ _ _ _ S1) as [Hg Ho].
       assert (Ed : nth k (map (fun r => fst (fst r)) rs) dummy_damp = d).
@@ -1051,18 +1063,23 @@ Proof.
   intros c lib groups bis pref_ch p0 s e chain dss k Hk Hwf Hd. unfold design_mb in Hd.
   eapply design_mb_from_budget; [exact Hk | apply map_length | exact Hwf | | exact Hd].
   assert (E : nth k (map (fun _ : bandinfo => (p0 - pref_ch, 0)) bis) (0, 0) = (p0 - pref_ch, 0)).
-  { rewrite (nth_indep _ (0, 0) ((fun _ : bandinfo => (p0 - pref_ch, 0)) (mkBI 0 0 0))) by (rewrite map_length; exact Hk).
-    rewrite map_nth. reflexivity. }
+  { clear - Hk. revert k Hk. induction bis as [| b bs IH]; intros k Hk; [cbn in Hk; lia |].
+    destruct k; [reflexivity |]. cbn [map nth]. apply IH. cbn in Hk. lia. }
   rewrite E. unfold qsum. cbn [map fold_right fst snd]. lra.
 Qed.
 
-(* each band amplifier of a multiband OMS is designed by the same set_one_amplifier: its saturation / VOA / operator
-   clauses are those of set_one_gen (dp_saturation, voa_rule, user_*_kept) with a sound selector *)
-Lemma band_selector_sound : forall c lib redfa prev b a, sel_sound lib (c_ext c) (band_selector c lib redfa prev b a).
+
+(* in every band the total design power of the band stays within the chosen entry's p_max (power mode) *)
+Theorem mb_node_within_pmax : forall c lib groups nl tp tp_arg prev next nd bis st amps rs k,
+  c_power_mode c = true -> (k < length bis)%nat ->
+  mb_node c lib groups nl tp tp_arg prev next nd bis st amps = Ok rs ->
+  let d := fst (fst (nth k rs (dummy_damp, 0, 0))) in
+  exists params, In params lib /\ a_name params = d_variety d /\
+                 bi_pref_total (nth k bis (mkBI 0 0 0)) + d_dp d <= a_pmax params.
 Proof.
-  intros c lib redfa prev b a g pt s red cr H. unfold band_selector in H.
-  match type of H with bind ?r _ = _ => destruct r as [[s' red'] | e] eqn:E end; cbn [bind] in H; [| discriminate].
-  injection H as <- <- _. unfold band_select in E.
-  destruct (select_fallback _ _ _ _ _ _ _ _ E) as (Hin & Hred & _).
-  split; [| exact Hred]. apply pool_subset in Hin. apply filter_In in Hin. tauto.
+  intros c lib groups nl tp tp_arg prev next nd bis st amps rs k Hpm Hk H. cbv zeta.
+  destruct (mb_node_set _ _ _ _ _ _ _ _ _ _ _ _ _ H) as [redfa ES].
+  destruct (mb_set_nth _ _ _ _ _ _ _ _ _ _ _ k ES Hk) as (sel & Hs & S1).
+  destruct (nth k rs (dummy_damp, 0, 0)) as [[d dp] voa]. cbn [fst].
+  eapply total_power_within_pmax; [exact Hs | left; exact Hpm | exact S1].
 Qed.
